@@ -135,3 +135,32 @@ Proof.
   rewrite (map_ext _ (fun ei : ielt * nat => length (ie_keys (fst ei)))) by (intros [e i]; simpl; apply map_length).
   rewrite <- (map_map fst (fun e => length (ie_keys e))). rewrite map_fst_combine; auto. rewrite seq_length. auto.
 Qed.
+
+(* ---- the traversal lists no element object twice ------------------------------------------------------------------------- *)
+Lemma dedup_spec : forall l seen,
+  NoDup (map ie_uid (dedup seen l)) /\ (forall u, In u (map ie_uid (dedup seen l)) -> ~ In u seen)
+  /\ (forall e, In e (dedup seen l) -> In e l).
+Proof.
+  induction l as [|e r IH]; intro seen; simpl.
+  - repeat split; [constructor|intros u []|intros e []].
+  - destruct (existsb (Nat.eqb (ie_uid e)) seen) eqn:E.
+    + destruct (IH seen) as (H1 & H2 & H3). repeat split; auto.
+    + destruct (IH (ie_uid e :: seen)) as (H1 & H2 & H3). repeat split.
+      * simpl. constructor; auto. intro Hin. apply (H2 _ Hin). left. reflexivity.
+      * intros u [Hu|Hu].
+        -- subst u. intro Hs. assert (Hex : existsb (Nat.eqb (ie_uid e)) seen = true).
+           { apply existsb_exists. exists (ie_uid e). split; auto. apply Nat.eqb_refl. }
+           congruence.
+        -- intro Hs. apply (H2 _ Hu). right. exact Hs.
+      * intros x [Hx|Hx]; [left; auto|right; apply H3; auto].
+Qed.
+
+Theorem elems_no_duplicates fuel c : NoDup (map ie_uid (elems fuel c)).
+Proof. destruct fuel; simpl; [constructor|]. apply dedup_spec. Qed.
+
+(* the identifiers handed out are therefore pairwise distinct per object: one running identifier per listed element object *)
+Corollary running_ids_functional fuel c :
+  NoDup (map fst (running_ids (elems fuel c))).
+Proof.
+  unfold running_ids. rewrite map_fst_combine by (rewrite map_length, seq_length; reflexivity). apply elems_no_duplicates.
+Qed.
